@@ -1,19 +1,40 @@
-"""C13 - regress log extraction: model/spec vs robsd-regress-log (DESIGN.md 7, C13)."""
-import os, subprocess, hashlib
+"""C13 - regress log extraction: model/spec vs robsd-regress-log, vs the library entry points in process,
+and the callers' classification (util.sh step_exec) vs its model (DESIGN.md 7, C13).
+
+Lanes (case['lane']):
+  cmd   robsd-regress-log [-FPSXn] file...            exit + stdout vs model `main`, oracle spec_ok_main
+  lib   regress_log_peek / _parse / _trim in process  (harness/rl_harness.c; REGRESS_LOG_NEWLINE and a pre-filled
+        output buffer included) vs model `peek` / `parse` / `trim`, oracle spec_ok_peek
+  step  the real step_exec of util.sh under bash with a stand-in runner that prints a prepared log and exits with a
+        prepared status (tools/regresslog) vs model `step_exec_exit`; 'late': the pipeline's tee starts 0.2 s late
+"""
+import os, re, subprocess, hashlib
 from concurrent.futures import ThreadPoolExecutor
 import common
 from common import hexs, unhex
 
-TRANSLATORS = []
-TRUSTED = ['modelled, not verified: read(2) of the log files, strstr/strncmp/strlen/memchr of libc, '
-           'stdio printf("%s"); getopt flag parsing is exercised, not modelled']
+TRANSLATORS = ['t_regresslog']
+TRUSTED = ['translator t_regresslog.py (regexes on regress-log.c/.h, robsd-regress-log.c, util-regress.sh, util.sh step_exec, '
+           'regress-html.c parse_run_log, step-exec.h)',
+           'modelled, not verified: read(2) of the log files, strstr/strncmp/strlen/memchr of libc, '
+           'stdio printf("%s"); getopt flag parsing is exercised and its option table translated, not modelled',
+           'step lane: bash in place of ksh, tools/regresslog/fakeexec in place of robsd-exec, tools/regresslog/latetee/tee '
+           '(a tee that starts late) as the adversarial schedule; tee(1) and the pipe are the system\'s']
+
+TOOLS = os.path.join(common.VERIF, 'tools', 'regresslog')
+RACE_SIG = 'step-exec-examines-log-before-tee-wrote-it'
 
 KW = [b'FAILED', b'SKIPPED', b'DISABLED', b'EXPECTED_FAIL', b'UNEXPECTED_PASS', b'XFAILED', b'FAIL', b'PASSED',
       b'EXPECTED_FAILURE', b'UNEXPECTED_PASSED', b'NOT_SKIPPED']
 MARKERS = [b'==== t1 ====', b'==== a b ====', b'===> sub/dir', b'==== ====', b'====  ====', b'==== x ==== ',
            b'====x ====', b'==== x===', b'=== x ====', b'==== a = b ====', b'==== a =====', b'===>', b'===', b'====',
-           b'==== ', b'==== =', b'==== a ==== ====', b' ==== t ====', b'==== t ====\x00junk', b'===\x00>']
-WORDS = [b'foo', b'bar baz', b'', b'cc -o x x.c', b'ok', b'+ not trace?', b'a\x00FAILED', b'\x00', b'*** Error 1', b'\r']
+           b'==== ', b'==== =', b'==== a ==== ====', b' ==== t ====', b'==== t ====\x00junk', b'===\x00>',
+           # the " =" scan quirk and its neighbours (RLMarkers.ismarker_regress_spec)
+           b'==== a =b ====', b'==== a= b ====', b'==== =a ====', b'==== a=b ====', b'====  = ====', b'==== a  ====',
+           # CRLF logs: a test marker followed by CR is no marker, "===>" and keywords still match
+           b'==== t1 ====\r', b'===> sub/dir\r', b'==== ====\r']
+WORDS = [b'foo', b'bar baz', b'', b'cc -o x x.c', b'ok', b'+ not trace?', b'a\x00FAILED', b'\x00', b'*** Error 1', b'\r',
+         b'x FAILED\r', b'\rFAILED', b'+ cd /usr/src\r', b'\r+ late', b'ok\r', b'FAILED\x00\r', b'\x00+']
 
 
 def gen_line(rng):
@@ -36,14 +57,37 @@ def gen_line(rng):
     return rng.choice(WORDS)
 
 
-def gen_log(rng):
+def long_line(rng, n):
+    """a line of n bytes: filler, optionally a keyword at the start / in the middle / at the very end, optionally a NUL"""
+    fill = rng.choice([b'x', b'=', b' =', b'ab '])
+    body = (fill * (n // len(fill) + 1))[:n]
+    k = rng.random()
+    kw = rng.choice(KW[:5])
+    if k < 0.3:
+        body = body[:n - len(kw)] + kw
+    elif k < 0.5:
+        body = kw + body[len(kw):]
+    elif k < 0.7:
+        body = body[:n // 2] + kw + body[n // 2 + len(kw):]
+    if rng.random() < 0.2:
+        z = rng.randrange(n)
+        body = body[:z] + b'\x00' + body[z + 1:]
+    if rng.random() < 0.2:
+        body = b'==== ' + body + b' ===='
+    return body
+
+
+def gen_log(rng, long_ok=True):
     n = rng.choice([0, 1, 2, 3, 5, 8, 13, 20])
     lines = [gen_line(rng) for _ in range(n)]
     if rng.random() < 0.5:   # leading trace block
         lines = [b'+ ' + rng.choice(WORDS + KW) for _ in range(rng.randint(1, 3))] + lines
-    data = b'\n'.join(lines)
+    if long_ok and rng.random() < 0.03:   # line length is unbounded: cross the 1 KiB (peek scratch) and 64 KiB marks
+        lines.insert(rng.randint(0, len(lines)), long_line(rng, rng.choice([1023, 1024, 1025, 5000, 70000])))
+    sep = b'\r\n' if rng.random() < 0.08 else b'\n'
+    data = sep.join(lines)
     if lines and rng.random() < 0.8:
-        data += b'\n'
+        data += sep
     return data
 
 
@@ -54,6 +98,58 @@ def gen_case(rng):
     for _ in range(nfiles):
         files.append(None if rng.random() < 0.03 else gen_log(rng))
     return {'flags': fl, 'doprint': rng.random() < 0.75, 'files': [None if f is None else f.hex() for f in files]}
+
+
+def huge_cases(rng, nlines=30):
+    """beyond the initial 1 MiB of the scratch and output buffers of the command (the extracted model appends to
+    its scratch block by copying: its cost grows with lines x bytes, hence few long lines in the quick tier)"""
+    a = long_line(rng, (1 << 20) + 17)
+    b = b'==== big ====\n' + b'\n'.join([b'line %d ' % i + b'.' * ((1200000 // nlines)) for i in range(nlines)]) + b'\nlast FAILED\nafter\n'
+    return [{'flags': 15, 'doprint': True, 'files': [(b'+ t\n' + a + b'\nz SKIPPED\n').hex()]},
+            {'flags': 1, 'doprint': True, 'files': [b.hex(), b'x FAILED'.hex()]}]
+
+
+def gen_lib_case(rng):
+    op = rng.choice(['peek', 'peek', 'parse', 'parse', 'parse', 'trim'])
+    c = {'lane': 'lib', 'op': op, 'flags': rng.randint(1, 15), 'file': None if rng.random() < 0.03 else gen_log(rng).hex()}
+    if op == 'parse':
+        c['newline'] = rng.random() < 0.5
+    if op != 'peek':
+        c['prefill'] = rng.choice([b'', b'', b'earlier block\n', b'x', b'\n']).hex()
+    if op == 'trim' and c['file'] is not None and rng.random() < 0.6:
+        # trailing trace blocks, trace lines in the middle
+        body = bytes.fromhex(c['file']) + b''.join(rng.choice([b'+ rm -f x\n', b'done\n', b'+ exit 0\n', b'+ a\n+ b\n'])
+                                                 for _ in range(rng.randint(1, 4)))
+        if rng.random() < 0.3:
+            body = body[:-1]
+        c['file'] = body.hex()
+    return c
+
+
+def gen_step_case(rng):
+    log = gen_log(rng, long_ok=False)
+    if rng.random() < 0.35:   # the runner traced its script, a test failed at the very end
+        log = b'+ make regress\n' + log + rng.choice([b'x FAILED\n', b'y UNEXPECTED_PASS\n', b'z FAILED', b'ok\n'])
+    return {'lane': 'step', 'mode': rng.choice(['robsd-regress', 'robsd-regress', 'robsd-regress', 'robsd', 'robsd-ports']),
+            'rc': rng.choice([0, 0, 0, 1, 2, 124]), 'log': log.hex(), 'late': False}
+
+
+LATE_CASES = [{'lane': 'step', 'mode': 'robsd-regress', 'rc': 0, 'late': True,
+               'log': b'+ make regress\n==== t1 ====\nok\n==== t2 ====\nx FAILED\n'.hex()},
+              {'lane': 'step', 'mode': 'robsd-regress', 'rc': 0, 'late': True, 'log': b'y UNEXPECTED_PASS\n'.hex()}]
+
+
+def run_driver(path, lines, timeout=900):
+    """common.run_driver with an unlimited stack: the extracted list functions are not tail recursive and a
+    line of 1 MiB overflows the default 8 MiB stack"""
+    r = subprocess.run(['bash', '-c', 'ulimit -s unlimited 2>/dev/null || ulimit -s hard; exec "$0"', path],
+                       input='\n'.join(lines) + '\n', stdout=subprocess.PIPE, stderr=subprocess.PIPE, text=True, timeout=timeout)
+    out = r.stdout.split('\n')
+    if out and out[-1] == '':
+        out.pop()
+    if len(out) != len(lines):
+        raise RuntimeError('driver %s: %d answers for %d questions (rc=%s, stderr=%s)' % (path, len(out), len(lines), r.returncode, r.stderr[-500:]))
+    return out
 
 
 def flag_toks(fl):
@@ -86,7 +182,7 @@ def run_impl(impl, work, idx, case):
         paths.append(p)
     try:
         r = subprocess.run([os.path.join(impl, 'robsd-regress-log'), flag_args(case['flags'], case['doprint'])] + paths,
-                           stdout=subprocess.PIPE, stderr=subprocess.PIPE, timeout=20)
+                           stdout=subprocess.PIPE, stderr=subprocess.PIPE, timeout=60)
         return (r.returncode, r.stdout, r.stderr)
     except subprocess.TimeoutExpired:
         return (-999, b'', b'timeout')
@@ -100,8 +196,15 @@ def load_corpus():
     return cases
 
 
+def get_impl(ctx):
+    if not getattr(ctx, '_c13_impl', None):
+        ctx._c13_impl = ctx.build_impl()
+    return ctx._c13_impl
+
+
 def evaluate(ctx, cases, res):
-    impl = ctx.build_impl()
+    """cmd lane"""
+    impl = get_impl(ctx)
     drv = ctx.build_driver('rl')
     work = ctx.mkscratch('c13work')
     with ThreadPoolExecutor(16) as ex:
@@ -112,7 +215,7 @@ def evaluate(ctx, cases, res):
         ft = [str(len(c['files']))] + file_toks(c)
         qs.append(' '.join(['main'] + base + ft))
         qs.append(' '.join(['ok'] + base + [str(rc if rc >= 0 else 999), hexs(out)] + ft))
-    ans = common.run_driver(drv, qs)
+    ans = run_driver(drv, qs)
     for i, (c, (rc, out, err)) in enumerate(zip(cases, obs)):
         m = ans[2 * i]
         ok = ans[2 * i + 1]
@@ -121,36 +224,188 @@ def evaluate(ctx, cases, res):
         key = hashlib.sha1(repr(c).encode()).hexdigest()
         res.count('exit=%d' % rc)
         res.count('files=%d' % len(c['files']))
-        if rc == 0 and any(f and b'===' in bytes.fromhex(f) for f in c['files'] if f is not None):
+        blobs = [bytes.fromhex(f) for f in c['files'] if f]
+        if any(b.count(b'\n') > 1 and b.count(b'\r\n') == b.count(b'\n') for b in blobs):
+            res.count('cmd: CRLF log')
+        if any(b'\x00' in b for b in blobs):
+            res.count('cmd: NUL byte in a log')
+        if any(max((len(l) for l in b.split(b'\n')), default=0) >= 1024 for b in blobs):
+            res.count('cmd: line of >= 1024 bytes')
+        if rc == 0 and any(b'===' in b for b in blobs):
             res.nontrivial.add(key)
         if m != impl_s:
-            res.disagreements.append({'case': c, 'model': m, 'impl': impl_s})
+            res.disagreements.append({'case': c, 'model': m[:2000], 'impl': impl_s[:2000]})
         if ok != '1':
             what = 'robsd-regress-log %s: exit %d, output differs from the specified extraction' % (
                 flag_args(c['flags'], c['doprint']), rc)
             if rc < 0 or rc > 2:
                 what = 'robsd-regress-log terminated abnormally (status %d)' % rc
             res.oracle_failures.append({'case': c, 'signature': 'extract-mismatch', 'what': what,
-                                        'impl': impl_s, 'stderr': err[-300:].decode('latin1')})
+                                        'impl': impl_s[:2000], 'stderr': err[-300:].decode('latin1')})
         if rc != 0 and out:
             res.oracle_failures.append({'case': c, 'signature': 'output-on-nonzero-exit',
-                                        'what': 'exit %d with %d bytes on stdout' % (rc, len(out)), 'impl': impl_s})
+                                        'what': 'exit %d with %d bytes on stdout' % (rc, len(out)), 'impl': impl_s[:2000]})
     return res
+
+
+def header_bits(impl):
+    hdr = open(os.path.join(impl, 'regress-log.h')).read()
+    bits = dict(re.findall(r'^#define\s+REGRESS_LOG_([A-Z]+)\s+0x([0-9a-fA-F]+)u', hdr, re.M))
+    return {k: int(v, 16) for k, v in bits.items()}
+
+
+def evaluate_lib(ctx, cases, res):
+    """lib lane: peek / parse / trim in process"""
+    impl = get_impl(ctx)
+    drv = ctx.build_driver('rl')
+    work = ctx.mkscratch('c13lib')
+    exe = os.path.join(work, 'rl_harness')
+    objs = [os.path.join(impl, o) for o in ('regress-log.o', 'buffer.o', 'consistency.o')]
+    r = common.sh(['cc', '-I' + impl, os.path.join(common.VERIF, 'harness', 'rl_harness.c')] + objs + ['-o', exe])
+    if r.returncode != 0:
+        raise common.BuildFailure('rl_harness: ' + r.stdout[-1500:])
+    bits = header_bits(impl)
+    lines, qs = [], []
+    for i, c in enumerate(cases):
+        p = os.path.join(work, 'f%d' % i)
+        if c['file'] is not None:
+            open(p, 'wb').write(bytes.fromhex(c['file']))
+        fl = c['flags']
+        cfl = sum(bits[n] for j, n in enumerate(['FAILED', 'SKIPPED', 'XFAILED', 'XPASSED']) if (fl >> j) & 1)
+        fh = c['file'] if c['file'] else '-'
+        if c['op'] == 'peek':
+            lines.append('peek %d %s' % (cfl, p))
+            qs.append(' '.join(['peek'] + flag_toks(fl) + [fh]))
+        elif c['op'] == 'parse':
+            nl = bool(c.get('newline'))
+            lines.append('parse %d %s %s' % (cfl | (bits['NEWLINE'] if nl else 0), p, c.get('prefill') or '-'))
+            qs.append(' '.join(['parse'] + flag_toks(fl) + ['1' if nl else '0', fh, c.get('prefill') or '-']))
+        else:
+            lines.append('trim %s %s' % (p, c.get('prefill') or '-'))
+            qs.append('trim ' + fh)
+    p = subprocess.run([exe], input=('\n'.join(lines) + '\n').encode(), stdout=subprocess.PIPE, stderr=subprocess.PIPE, timeout=600)
+    outs = p.stdout.decode().split('\n')[:-1]
+    if len(outs) != len(cases):
+        res.oracle_failures.append({'case': cases[len(outs)] if len(outs) < len(cases) else None, 'signature': 'abnormal-termination',
+                                    'what': 'regress-log.c in process: harness died (status %s) at case %d' % (p.returncode, len(outs))})
+        return
+    ans = run_driver(drv, qs)
+    pk = [(i, c) for i, c in enumerate(cases) if c['op'] == 'peek' and c['file'] is not None]
+    oks = run_driver(drv, [' '.join(['okpeek'] + flag_toks(c['flags']) + [outs[i].split()[0], c['file'] or '-'])
+                                  for i, c in pk]) if pk else []
+    okmap = {i: o for (i, _), o in zip(pk, oks)}
+    for i, (c, o, m) in enumerate(zip(cases, outs, ans)):
+        res.evaluations += 1
+        res.count('lib: %s%s' % (c['op'], ' NEWLINE' if c.get('newline') else ''))
+        if c['file'] is None:
+            want = '-1 ' + (c.get('prefill') or '-') if c['op'] == 'parse' else '-1 -'
+            if c['op'] == 'trim':
+                want = '-1 ' + (c.get('prefill') or '-')
+        elif c['op'] == 'peek':
+            want = m + ' -'
+        elif c['op'] == 'parse':
+            want = m
+        else:
+            want = '1 ' + m
+        if c['file'] and b'===' in bytes.fromhex(c['file']) and not o.startswith('0 ') and not o.startswith('-1'):
+            res.nontrivial.add(hashlib.sha1(repr(c).encode()).hexdigest())
+        if o != want:
+            res.disagreements.append({'case': c, 'model': want[:2000], 'impl': o[:2000], 'via': 'in process'})
+        if okmap.get(i, '1') != '1':
+            res.oracle_failures.append({'case': c, 'signature': 'peek-mismatch', 'impl': o,
+                                        'what': 'regress_log_peek returned %s: not "1 iff a selected line exists after the leading trace block"' % o.split()[0]})
+
+
+def run_step(impl, work, cases):
+    for i, c in enumerate(cases):
+        open(os.path.join(work, '%d.log' % i), 'wb').write(bytes.fromhex(c['log']))
+        open(os.path.join(work, '%d.rc' % i), 'w').write('%d\n' % c['rc'])
+        open(os.path.join(work, '%d.mode' % i), 'w').write(c['mode'] + '\n')
+        late = os.path.join(work, '%d.late' % i)
+        if c.get('late'):
+            open(late, 'w').close()
+        elif os.path.exists(late):
+            os.unlink(late)
+    r = subprocess.run(['bash', os.path.join(TOOLS, 'step_exec_cases.sh'), impl, work, str(len(cases))],
+                       stdout=subprocess.PIPE, stderr=subprocess.PIPE, timeout=600)
+    got = {}
+    for l in r.stdout.decode('latin1').splitlines():
+        t = l.split()
+        if len(t) == 2 and t[0].isdigit():
+            got[int(t[0])] = t[1]
+    return [got.get(i, 'none') for i in range(len(cases))], r.stderr[-300:].decode('latin1')
+
+
+def evaluate_step(ctx, cases, res):
+    """step lane: the orchestrator's classification.  The oracle is the Hence clause itself: in regress mode a log
+    with a FAILED / UNEXPECTED_PASS line after the leading trace block gives a non-zero status (the model's
+    regress_failed is proved equivalent to that, C13_hence_regress_failed)."""
+    impl = get_impl(ctx)
+    drv = ctx.build_driver('rl')
+    work = ctx.mkscratch('c13step')
+    qs = []
+    for c in cases:
+        qs.append('stepexec %d %d %s' % (1 if c['mode'] == 'robsd-regress' else 0, c['rc'], c['log'] or '-'))
+        qs.append('stepexec 1 0 %s' % (c['log'] or '-'))
+    ans = run_driver(drv, qs)
+    obs, err = run_step(impl, work, cases)
+    for i, c in enumerate(cases):
+        m, failing = ans[2 * i], ans[2 * i + 1] == '1'
+        o = obs[i]
+        res.evaluations += 1
+        res.count('step: mode=%s%s%s' % (c['mode'], ' failing-line' if failing else '', ' late-tee' if c.get('late') else ''))
+        if failing and c['mode'] == 'robsd-regress':
+            res.nontrivial.add(hashlib.sha1(repr(c).encode()).hexdigest())
+        if o == m:
+            continue
+        lost = failing and c['mode'] == 'robsd-regress' and o == str(c['rc'])
+        if lost and c.get('late'):
+            # the same case with the system's tee: still wrong means the classification is broken, not the schedule
+            if run_step(impl, work, [dict(c, late=False)])[0][0] != m:
+                lost = False
+        elif lost:
+            # the failure was lost: race with tee, or a broken classification?  Three more runs decide.
+            again = [run_step(impl, work, [c])[0][0] for _ in range(3)]
+            if any(a == m for a in again):
+                c = dict(c, flaky=[o] + again)
+            else:
+                lost = False
+        if lost:
+            res.oracle_failures.append({'case': c, 'signature': RACE_SIG, 'impl': o,
+                                        'what': 'step_exec returned %s for a regress step whose complete log has a FAILED/UNEXPECTED_PASS line after the '
+                                                'leading trace block: regress_failed read the log before tee had written it' % o})
+            continue
+        res.disagreements.append({'case': c, 'model': m, 'impl': o, 'via': 'step_exec', 'stderr': err})
+        if c['mode'] == 'robsd-regress' and failing and o == '0':
+            res.oracle_failures.append({'case': c, 'signature': 'failed-run-classified-as-passed', 'impl': o,
+                                        'what': 'step_exec returned 0 for a regress step whose log has a FAILED/UNEXPECTED_PASS line after the leading trace block'})
+        elif o in ('0', 'none') and c['rc'] != 0:
+            res.oracle_failures.append({'case': c, 'signature': 'runner-failure-lost', 'impl': o,
+                                        'what': 'step_exec returned %s although the runner exited %d' % (o, c['rc'])})
 
 
 def run(ctx, n=None):
     res = common.Result()
-    res.rule = ('logs generated from the line kinds the property lists (trace lines, markers and near-miss markers, '
-                'outcome keywords and keyword-like substrings, NUL bytes, empty lines, with/without final newline), '
-                '1-3 files, all 15 selections, print/no-print; non-trivial = exit 0 and a marker-like line present; '
-                'distinct by content hash')
+    res.rule = ('logs generated from the line kinds the property lists (trace lines, markers and near-miss markers incl. the " =" scan quirk, '
+                'outcome keywords and keyword-like substrings, two keywords on a line, NUL bytes, CR / CRLF line ends, empty lines, lines of 1 KiB to 1 MiB, '
+                'with/without final newline), 1-3 files, all 15 selections, print/no-print through the command; the library entry points '
+                'peek/parse(+NEWLINE, pre-filled buffer)/trim in process; util.sh step_exec with a stand-in runner in regress and other modes, '
+                'also with a late tee; non-trivial = exit 0 (result > 0, failing regress step) and a marker-like line present; distinct by content hash')
+    quick = n is None and ctx.tier != 'thorough'
     n = n or ctx.budget(1500, 60000)
-    cases = load_corpus() + [gen_case(ctx.rng) for _ in range(n)]
-    res.samples = cases[:3]
-    res.assumptions = ['bytes 0..255 only; files up to ~25 lines in the correspondence (the theorems have no bound)']
+    cases = load_corpus()
+    ccases = [c for c in cases if c.get('lane', 'cmd') == 'cmd'] + huge_cases(ctx.rng, 30 if quick else 300) + [gen_case(ctx.rng) for _ in range(n)]
+    res.samples = ccases[:1]
+    res.assumptions = ['bytes 0..255 only; files up to ~25 lines plus single lines up to 1 MiB in the correspondence (the theorems have no bound)']
     chunk = 20000
-    for i in range(0, len(cases), chunk):
-        evaluate(ctx, cases[i:i + chunk], res)
+    for i in range(0, len(ccases), chunk):
+        evaluate(ctx, ccases[i:i + chunk], res)
+    lcases = [c for c in cases if c.get('lane') == 'lib'] + [gen_lib_case(ctx.rng) for _ in range(max(300, n // 3))]
+    res.samples.append(lcases[0])
+    evaluate_lib(ctx, lcases, res)
+    scases = [c for c in cases if c.get('lane') == 'step'] + LATE_CASES + [gen_step_case(ctx.rng) for _ in range(40 if quick else min(600, n // 50))]
+    res.samples.append(scases[0])
+    evaluate_step(ctx, scases, res)
     res.traces_validated = res.evaluations
     return res
 
@@ -159,14 +414,24 @@ def extended_search(ctx, res, proof):
     return run(ctx, n=20000)
 
 
+def eval_any(ctx, case, res):
+    lane = case.get('lane', 'cmd')
+    if lane == 'lib':
+        evaluate_lib(ctx, [case], res)
+    elif lane == 'step':
+        evaluate_step(ctx, [case], res)
+    else:
+        evaluate(ctx, [case], res)
+
+
 def replay(ctx, rep):
     case = rep.get('case') or (rep.get('first_disagreements') or [{}])[0].get('case')
     if case is None:
         print(rep)
         return 1
     res = common.Result()
-    evaluate(ctx, [case], res)
-    print('case:', case)
+    eval_any(ctx, case, res)
+    print('case:', {k: (v if len(str(v)) < 400 else str(v)[:400] + '...') for k, v in case.items()})
     print('disagreements:', res.disagreements)
     print('oracle failures:', res.oracle_failures)
     return 1 if (res.disagreements or res.oracle_failures) else 0
@@ -175,14 +440,26 @@ def replay(ctx, rep):
 def shrink(ctx, failure):
     """smallest log (by lines) on which the same oracle signature still fails"""
     case = failure['case']
-    if len(case['files']) != 1 or case['files'][0] is None:
+    lane = case.get('lane', 'cmd')
+    if lane == 'cmd':
+        if len(case['files']) != 1 or case['files'][0] is None:
+            return None
+        get, put = (lambda: case['files'][0]), (lambda h: dict(case, files=[h]))
+    elif lane == 'lib':
+        if case['file'] is None:
+            return None
+        get, put = (lambda: case['file']), (lambda h: dict(case, file=h))
+    else:
+        if case.get('late'):
+            return None
+        get, put = (lambda: case['log']), (lambda h: dict(case, log=h))
+    lines = bytes.fromhex(get()).split(b'\n')
+    if len(lines) > 200 or len(get()) > 200000:
         return None
-    lines = bytes.fromhex(case['files'][0]).split(b'\n')
 
     def still(ls):
-        c = dict(case, files=[b'\n'.join(ls).hex()])
         r = common.Result()
-        evaluate(ctx, [c], r)
+        eval_any(ctx, put(b'\n'.join(ls).hex()), r)
         return any(x.get('signature') == failure.get('signature') for x in r.oracle_failures)
     small = common.ddmin(lines, still, budget=40)
-    return dict(case, files=[b'\n'.join(small).hex()])
+    return put(b'\n'.join(small).hex())
